@@ -306,7 +306,6 @@ def run(ctx):
         _L.coqchk(ctx, ["Pq.Proofs.EditHistory"])
     C.use_shadow()
     C.pqref()
-    import multiprocessing as mp
     rng = ctx.rng
     nh = 300 if ctx.quick() else 3000
     ctx.rule = ("history = initial hive write (0..2 partition columns, 1..8 rows, 1..4 row groups) + 0..5 operations over {append, append='overwrite', "
@@ -320,9 +319,26 @@ def run(ctx):
             h = json.load(open(os.path.join(cdir, f)))["history"]
             h["id"] = 100000 + i
             hs.insert(0, h)
-    with mp.get_context("fork").Pool(8 if ctx.quick() else 12) as pool:
-        results = pool.map(run_history, [(h, ctx.scratch) for h in hs], chunksize=2)
+    results = C.pmap(run_history, [(h, ctx.scratch) for h in hs], nproc=8 if ctx.quick() else 12, job_timeout=180)
     by_id = {h["id"]: h for h in hs}
+    # a history whose worker process crashed (segfault / abort in native code) or hung: find the shortest crashing prefix and
+    # report it as a failing input - the dataset cannot be read back at all
+    crashed = [(h, r) for h, r in zip(hs, results) if isinstance(r, dict) and "__crashed__" in r]
+    for h, r in crashed[:5]:
+        pre = [{"id": h["id"] * 10 + n, "pcols": h["pcols"], "ops": h["ops"][:n]} for n in range(1, len(h["ops"]) + 1)]
+        rr = C.pmap(run_history, [(x, ctx.scratch) for x in pre], nproc=4, job_timeout=180)
+        bad = [x for x, y in zip(pre, rr) if isinstance(y, dict) and "__crashed__" in y]
+        hh = bad[0] if bad else h
+        o = hh["ops"][-1]
+        ctx.fail({"component": "dataset-edit", "symptom": "process-crashed-or-hung", "op": o["op"], "partitioned": bool(h["pcols"]),
+                  "emptied_before": False, "sort_pnames": bool(o.get("sort_pnames") or o["op"] == "overwrite")},
+                 {"history": {"id": h["id"], "pcols": h["pcols"], "ops": hh["ops"]}, "step": len(hh["ops"]) - 1, "observed": r["__crashed__"]},
+                 "running / observing this history kills or hangs the process: %s" % r["__crashed__"])
+    if len(crashed) > 5:
+        ctx.notes.append("%d histories crashed the worker process; 5 reported" % len(crashed))
+    keep = [i for i, r in enumerate(results) if not (isinstance(r, dict) and "__crashed__" in r)]
+    hs = [hs[i] for i in keep]
+    results = [results[i] for i in keep]
     cmds = []
     for res in results:
         if res["error"]:
@@ -394,7 +410,11 @@ def replay(rep):
     h = rep["case"]["history"]
     tmp = tempfile.mkdtemp(prefix="verif-C09-replay-", dir="/tmp")
     try:
-        res = run_history((h, tmp))
+        res = C.pmap(run_history, [(h, tmp)], nproc=1, job_timeout=300)[0]       # in a child: a crash is an observation
+        if "__crashed__" in res:
+            print("history: %s" % [{k: v for k, v in o.items() if k != "frame"} for o in h["ops"]])
+            print("PROPERTY FAILS: process-crashed-or-hung: %s" % res["__crashed__"])
+            return 1
         if res["error"]:
             print(res["error"])
             return 1
